@@ -21,6 +21,8 @@ class ConjugateApprox: # TODO: Subclass from Sampler once updated
             raise ValueError("Conjugate sampler only works with Laplace diff likelihood function")
         if not isinstance(target.prior, Gamma):
             raise ValueError("Conjugate sampler only works with Gamma prior")
+        if not target.prior.dim == 1:
+            raise ValueError("Conjugate sampler only works with univariate Gamma prior")
         self.target = target
 
     def step(self, x=None):
